@@ -267,11 +267,22 @@ func c11Transfer(c c11Case, view fsutil.FS, dst, pre string, listed []string) (s
 // pmClass: does the naive matcher entry point disagree with the incremental chain
 // for this path under the case's pattern lists (the known dependency finding)?
 func pmClass(c c11Case, p string) bool {
+	inc := c.Include
 	if len(c.Follow) > 0 {
-		return false
+		// follow paths become include patterns: every link traversed and the final location, as the independent
+		// resolver of C18 computes them
+		inc = append([]string{}, c.Include...)
+		for _, f := range c.Follow {
+			links, final, _ := resolveRef(c.Tree, f)
+			inc = append(inc, links...)
+			if final == "" {
+				return false // the root is reached: no include filtering at all
+			}
+			inc = append(inc, final)
+		}
 	}
-	nk, err1 := naiveKept(c.Tree, c.Include, c.Exclude)
-	ck, err2 := chainKept(c.Tree, c.Include, c.Exclude)
+	nk, err1 := naiveKept(c.Tree, inc, c.Exclude)
+	ck, err2 := chainKept(c.Tree, inc, c.Exclude)
 	return err1 == nil && err2 == nil && nk[p] != ck[p]
 }
 
